@@ -114,8 +114,10 @@ static MPT_STRUCT(buffer) *_mpt_buffer_alloc_detach(MPT_STRUCT(buffer) *ptr, siz
 			return &buf->buf;
 		}
 	}
-	/* block copy of data */
-	else if ((buf->_flags & MPT_ENUM(BufferNoCopy)) && buf->buf._used) {
+	/* block copy of data, elements with finalizer need copy operation */
+	else if (buf->buf._used
+	      && ((buf->_flags & MPT_ENUM(BufferNoCopy))
+	       || (traits && traits->fini && !traits->init))) {
 		errno = ENOTSUP;
 		return 0;
 	}
